@@ -39,7 +39,13 @@ def _job(args):
                       'raised': False, 'report': [], 'err': '', 'via': 'parser' if via_parser else 'excel'}
                 try:
                     if via_parser:
+                        # one Parser, the check toggled the other way first: the setting in force at the call decides
                         ps = repo.Parser().set_excel_file_path(x)
+                        (ps.disable_safety_check() if gate else ps.enable_safety_check())
+                        try:
+                            ps.get_translation()
+                        except repo.E2PyclException:
+                            pass
                         (ps.enable_safety_check() if gate else ps.disable_safety_check())
                         try:
                             ps.get_translation()
